@@ -352,13 +352,22 @@ pub fn text_outcome(rec: &J) -> Verdict {
         Ok(p) => (format!("{:#?}", p), rrss::linter::standard_linter().run(&p).diags.iter().map(|d| format!("{}|{}|{:?}", d.line, d.issue, d.suggestions)).collect::<Vec<_>>().join("\n")),
         Err(e) => (format!("ERR {}", e), String::new()),
     };
-    Verdict::ok_with(true, json!({"dump": dump, "lint": lint}))
+    // the entry point the command-line tool uses (parse + standard linter in one call)
+    let fmt = |ds: &[rrss::linter::Diag]| ds.iter().map(|d| format!("{}|{}|{:?}", d.line, d.issue, d.suggestions)).collect::<Vec<_>>().join("\n");
+    let cli_lint = match rrss::cli::linter::lint(&text) {
+        Ok(r) => fmt(&r.diags),
+        Err(_) => String::new(),
+    };
+    Verdict::ok_with(true, json!({"dump": dump, "lint": lint, "cli_lint": cli_lint}))
 }
 pub fn check_dettext(rec: &J, helper: &mut Option<crate::Helper>) -> Verdict {
     let first = match catch_unwind(AssertUnwindSafe(|| text_outcome(rec).obs)) {
         Ok(o) => o,
         Err(p) => return Verdict::viol(format!("front end or linter panicked: {}", panic_msg(p)), J::Null),
     };
+    if first["lint"] != first["cli_lint"] {
+        return Verdict::viol("cli::linter::lint reports something else than a fresh standard linter on the same text (state carried over from an earlier call?)".into(), first);
+    }
     for k in 0..3 {
         if text_outcome(rec).obs != first {
             return Verdict::viol(format!("repetition {} in the same process gives a different dump or lint report", k + 2), J::Null);
